@@ -3,14 +3,15 @@ Require Import Value Bytes Aes Modes KeyWrap Crc CryptoProofs FlashEncModel Flas
 Import ListNotations.
 Local Open Scope Z_scope.
 
-(* C13, BEE: an image cut at a multiple of 1 KiB and encrypted in two calls at the two addresses gives the bytes of one call. *)
+(* C13, BEE: an image cut anywhere on the absolute 1 KiB grid and encrypted in two calls at the two addresses gives the
+   bytes of one call, for every base. *)
 Theorem bee_address_only :
-  forall (E : cipher) (ohs : list (option bhdr)) (base : Z) (x y : list N) (q : nat),
-  length x = (q * 1024)%nat ->
+  forall (E : cipher) (ohs : list (option bhdr)) (base : Z) (x y : list N),
+  (base + zlen x) mod 1024 = 0 ->
   bee_export_image E ohs (x ++ y) base =
   match bee_export_image E ohs x base with
   | Ok cx => match bee_export_image E ohs y (base + zlen x) with Ok cy => Ok (cx ++ cy) | Err k => Err k end
   | Err k => Err k
   end.
-Proof. intros E ohs base x y q H. now apply (bee_address_only_l E ohs base x y q). Qed.
+Proof. intros E ohs base x y H. now apply bee_address_only_l. Qed.
 Print Assumptions bee_address_only.
